@@ -16,7 +16,7 @@ import math
 import numpy as np
 
 from checks import _truth as T
-from mc import payload
+from mc import looks, payload
 from mc.core import Tally
 
 ID = "C01"
@@ -174,6 +174,17 @@ def _column(S, Lam, Fn, Xi, Phi, om, rows=None):
     return T.compare_poles(S, Lam[:, o], Fn[:, o], Xi[:, o], Phi[:, o, :], rows=rows)
 
 
+# "run, look, then read": on every LOOK_ALG-th (LOOK_SETUP-th) decay case the public plot methods of the algorithm (of the
+# setup) are called between the steps; they are read-only operations and must not change what is identified (mc/looks.py)
+LOOK_ALG, LOOK_SETUP = 29, 211
+
+
+def _look_band(S):
+    """A frequency window [Hz] that leaves at least one mode outside (the only one for m = 1)."""
+    f = np.sort(np.asarray(S.fn, float))
+    return (0.0, 0.5 * (f[0] + f[-1])) if len(f) > 1 else (0.0, 0.5 * f[0])
+
+
 # ---- one case -----------------------------------------------------------------------------------------
 def run_case(case, seed):
     t = Tally()
@@ -256,7 +267,14 @@ def run_decay(t, case, seed):
         ref_ind = None if refs == list(range(l)) else [int(i) for i in refs]
         alg = cls(name="a", method=meth, br=int(br), ordmax=int(om), ref_ind=ref_ind, hc=dict(HC))
         ss.add_algorithms(alg)
+        band = _look_band(S)
+        if case["idx"] % LOOK_SETUP == 0:       # run, LOOK, then read: the data plots of the setup before the identification
+            for name, err in looks.look_at_setup(ss, case["idx"] // LOOK_SETUP, band):
+                t.outcomes[f"looked-at-setup-before-run:{name}" + (":raised" if err else "")] += 1
         ss.run_by_name("a")
+        if case["idx"] % LOOK_ALG == 0:         # the charts of the algorithm (window leaving modes outside) before tables are read
+            for name, err in looks.look_at_alg(alg, case["idx"] // LOOK_ALG, band):
+                t.outcomes[f"looked-at-algorithm-before-reading:{name}" + (":raised" if err else "")] += 1
         R = alg.result
         t.evaluations += 1
         res = _column(S, R.Lambds, R.Fn_poles, R.Xi_poles, R.Phi_poles, om)
@@ -397,12 +415,18 @@ def explore(ctx):
                            "(m, l, shapes, refs, placement, method) by rotation, all 54 covered; exact-H: fs by rotation"),
         "free_decay_cases": len(decay), "exact_H_cases": len(exact),
         "tolerances": dict(T.TOL), "guards": dict(GUARD),
+        "read_only_operations_interleaved": {"setup route, every %d-th free-decay case" % LOOK_ALG: "plot_stab, plot_cluster, plot_svalH of the algorithm between run and "
+                                             "the reading of the tables / mpe (frequency window leaving modes outside, hide_poles rotating)",
+                                             "setup route, every %d-th free-decay case" % LOOK_SETUP: "plot_data, plot_ch_info, plot_STFT of the setup before the run"},
     }
     ctx.pmap(_work, _items(decay, 40))
     ctx.pmap(_work, _items(exact, 150))
     ctx.tally.sample({"note": "lattice sizes", "free_decay_cases": len(decay), "exact_H_cases": len(exact)})
     ctx.require("response-level:1", "response-level:3e-08", "response-level:200000", "func:agree", "legacy:agree", "setup:agree", "mpe:agree", "exact-fast:agree", "exact-legacy:agree",
-                "shapes:complex", "shapes:real", "refs:proper-subset", "refs:all", "method:cov_mm", "method:dat")
+                "shapes:complex", "shapes:real", "refs:proper-subset", "refs:all", "method:cov_mm", "method:dat",
+                "looked-at-algorithm-before-reading:plot_stab", "looked-at-algorithm-before-reading:plot_cluster",
+                "looked-at-algorithm-before-reading:plot_svalH", "looked-at-setup-before-run:plot_ch_info",
+                "looked-at-setup-before-run:plot_data", "looked-at-setup-before-run:plot_STFT")
 
 
 def replay(case):
